@@ -63,7 +63,7 @@ def base(draw, integer=False, gridders=GRIDDERS, min_n=4):
         step = draw(st.sampled_from([1, 2, 10]))
         off = [draw(st.sampled_from([0, -50, 1000])), draw(st.sampled_from([0, 7, -3000]))]
         cloud = dict(cells=[list(c) for c in cells], side=side, step=step, off=off, integer=True, scale=float(step))
-        data = [[float(v) for v in draw(st.lists(st.integers(-50, 50), min_size=n, max_size=n))] for _ in range(2)]
+        data = [[float(v) for v in draw(st.lists(st.integers(-120, 120), min_size=n, max_size=n))] for _ in range(2)]
         m = draw(st.integers(1, 10))
         query = [[draw(st.integers(-1, side)), draw(st.integers(-1, side))] for _ in range(m)]
     else:
@@ -183,6 +183,8 @@ def layout_cases(draw):
         # query points that are almost, but not quite, a regular grid (each a few 1e-6 of its coordinate away from its node), handed over as 2-D arrays
         t["near_grid"] = [draw(st.integers(2, 5)), draw(st.integers(2, 5))]
         t["query"] = draw(st.sampled_from(["2d", "fortran"]))
+    # arrays read from big-endian files (netCDF classic, FITS, raw binary) keep a non-native byte order
+    t["big_endian"] = draw(st.sampled_from([None, None, None, "coords", "data", "query", "all"]))
     t["fit_shape"] = draw(st.sampled_from(blocks.shape_options(n)[1:] or [[n, 1]]))
     t["query_shape"] = draw(st.sampled_from(blocks.shape_options(m)[1:] or [[m, 1]]))
     case["transform"] = t
@@ -242,14 +244,24 @@ def check_layout(case, ctx):
     junk = [float(i) for i in range(len(e))]
     if len(junk) >= 3 and build.plain_flag(case):
         junk[1], junk[-1] = float("nan"), float("inf")
+    be = t.get("big_endian")
+
+    def swapped(a):
+        return a.astype(a.dtype.newbyteorder(">")) if isinstance(a, np.ndarray) and a.dtype.kind in "fiu" and a.dtype.itemsize > 1 else a
+    if be in ("coords", "all"):
+        e2, n2 = swapped(e2), swapped(n2)
+    if be in ("data", "all"):
+        data2 = [swapped(d) for d in data2]
     extra = [present(junk, fit_kind, t["fit_shape"], "float64") for _ in range(t["extra"])]
     qe2, qn2 = present(qe, t["query"], t["query_shape"], dq), present(qn, t["query"], t["query_shape"], dq)
+    if be in ("query", "all"):
+        qe2, qn2 = swapped(qe2), swapped(qn2)
     qextra = [present([1.0] * len(qe), t["query"], t["query_shape"], "float64") for _ in range(t["qextra"])]
     got = fit_predict(case, e2, n2, data2, qe2, qn2, extra, qextra)
     qshape = np.shape(qe2)
     compare(ctx, "%s with fit layout %s/%s/%s, query layout %s/%s, %d extra coordinate(s)" % (case["gridder"], fit_kind, dc, dd, t["query"], dq, t["extra"]),
             ref, got, 1e-12 * magnitude(case, ref), qshape)
-    changed = fit_kind != "same" or table is not None or t["query"] != "same" or t["extra"] or t["qextra"] or (dc, dd, dq) != ("float64",) * 3
+    changed = fit_kind != "same" or table is not None or be is not None or t["query"] != "same" or t["extra"] or t["qextra"] or (dc, dd, dq) != ("float64",) * 3
     ctx.label(case["gridder"], "fit_" + (fit_kind if not table else "table_" + table), "query_" + t["query"], "extra%d" % t["extra"], *(["near_grid_query"] if t.get("near_grid") else []))
     if (dc, dd, dq) != ("float64",) * 3:
         ctx.label(*["narrow_or_unsigned_" + w for w, d_ in (("coords", dc), ("data", dd), ("query", dq)) if d_ not in ("float64", "int64", "int32")])
